@@ -182,7 +182,7 @@ func (w *Writer) Close(m Meta) error {
 			if k > 0 {
 				sb.WriteString(";\n")
 			}
-			fmt.Fprintf(&sb, " (%d, %s, %s)", c.ID, c.Input, c.Observed)
+			fmt.Fprintf(&sb, " (N.to_nat %d%%N, %s, %s)", c.ID, c.Input, c.Observed)
 		}
 		sb.WriteString("\n].\n")
 		sb.WriteString("Definition M := Eval vm_compute in case_mismatches cases. Print M.\n")
